@@ -144,7 +144,9 @@ def carrier(obj) -> str:
         return "ndarray"
     if isinstance(obj, numpy.generic):
         return "npscalar"
-    if isinstance(obj, (list, tuple)):
+    if isinstance(obj, tuple):
+        return "tuple"
+    if isinstance(obj, list):
         return "list"
     return "py" + type(obj).__name__
 
